@@ -31,7 +31,7 @@ class StubInsn:
         if g == capstone.CS_GRP_JUMP:
             return self.kind in ("jmp", "jcc", "ijmp")
         if g == capstone.CS_GRP_CALL:
-            return self.kind in ("call", "icall")
+            return self.kind in ("call", "icall", "rcall")
         if g == capstone.CS_GRP_RET:
             return self.kind == "ret"
         return False
@@ -92,7 +92,7 @@ def block_order(sc):
 
 def has_terminator(sc, bid):
     """A block has a terminator iff it has a non-fallthrough outgoing edge (rule of _nonterminator_instructions)."""
-    return sc.atoms[bid][-1].kind in ("jmp", "jcc", "call", "icall", "ijmp", "ret", "sys")
+    return sc.atoms[bid][-1].kind in ("jmp", "jcc", "call", "icall", "ijmp", "ret", "sys", "rcall")
 
 
 def exit_blocks(sc, fname):
